@@ -24,7 +24,7 @@ def setup(symbolic):
 
 
 def bounds(tier):
-    return {'stream': 'skeleton of 16 records: per thread an open() window with one lookup, a read() window, a thread-name '
+    return {'stream': 'skeleton of 18 records (an orphan END first, a never-ending START last): per thread an open() window with one lookup, a read() window, a thread-name '
                       'string and a Mach trap; plus a sampler window before and after an image announcement',
             'filters': 'filter_tid None or free 64-bit; filter_process None / name / pid text / unknown; class list 0..2 entries '
                        'free 8-bit; BSD-subclass list 0..1 entries (0x40c or any other 0x04xx); class values sharded over {1,3,4,7,other}',
@@ -43,7 +43,10 @@ def structures(tier):
         for c1 in shards:
             if tier == 'thorough' or (c0, c1) in ((4, 1), (1, 7), (3, None), (7, 3), (None, None), (4, 4)):
                 sts.append({'kind': 'select', 'tid': False, 'proc': None, 'nc': 2, 'ns': 0, 'c': [c0, c1]})
-    for s0 in (0x40c, None):       # BSD subclasses only (the property speaks of BSD-subclass filters): 0x40c or any other 0x04xx
+    # BSD subclasses (0x40c or any other 0x04xx) and the subclasses of the two helper classes when requested themselves
+    sts.append({'kind': 'select', 'tid': False, 'proc': None, 'nc': 0, 'ns': 2, 's': [0x40c, 0x301]})
+    sts.append({'kind': 'select', 'tid': False, 'proc': None, 'nc': 1, 'ns': 1, 's': [0x701], 'c': [4]})
+    for s0 in (0x40c, 0x301, 0x701, None):
         sts.append({'kind': 'select', 'tid': False, 'proc': None, 'nc': 0, 'ns': 1, 's': [s0]})
         sts.append({'kind': 'select', 'tid': False, 'proc': None, 'nc': 1, 'ns': 1, 's': [s0], 'c': [1]})
     for seq in ('traces;traces', 'traces;kevents', 'callstacks;callstacks', 'traces;callstacks'):
@@ -80,6 +83,7 @@ def skeleton(ctx):
         ev('PERF_STK_UHdr', 0, tid, [1, 1, 0, 0])
         ev('PERF_STK_UData', 0, tid, [ctx.int('frame' + tag), 0, 0, 0])
         ev('PERF_Event', 2, tid, [0x8, 0, 0, 0])
+    ev('BSC_read', 2, T2, [0, ctx.int('orphan'), 0, 0])          # an END whose START precedes the dump
     sample(T1, 'a')
     ev('DYLD_uuid_map_a', 0, T2, data=bytes(range(1, 17)) + K.to_le(ctx.int('img'), 8) + bytes(8))
     for tid, tag in ((T1, 'x'), (T2, 'y')):
@@ -92,6 +96,7 @@ def skeleton(ctx):
     ev('BSC_read', 2, T1, [0, ctx.int('count'), 0, 0])
     ev('MSC_mach_vm_allocate_trap', 2, T2)
     sample(T1, 'b')
+    ev('BSC_read', 1, T2)                                          # a START that never ends
     return recs
 
 
@@ -144,7 +149,7 @@ def run(ctx, st):
     subclasses = []
     for i in range(st['ns']):
         s = ctx.int('s%d' % i, 16)
-        v = st.get('s', [None])[i]
+        v = (st.get('s') or [None] * st['ns'])[i]
         if v is not None:
             ctx.assume(s == v)
         else:
